@@ -187,6 +187,22 @@ def fam_xdg(tier):
                 c = b.case((["-s"] if sflag else []) + argv, stdin=M.lua_probe(905) if shape == "stdin-filepath" else None,
                            tag=f"xdgmask{mask}:{'s' if sflag else '-'}:outside-cwd:{shape}")
                 cases.append(c)
+    # the same targets with a configuration file at each level of their own ancestry: the target's directory, below /
+    # at / above the deepest directory they share with the working directory, the root of the tree
+    for li, loc in enumerate(("up1/elsewhere/lib", "up1/elsewhere", "up1", "")):
+        for shape in ("abs-file", "abs-dir", "stdin-filepath"):
+            for second in (None, "up1") if loc in ("", "up1/elsewhere") else (None,):
+                b = Builder("outside-cwd")
+                b.toml(None, path=(loc + "/" if loc else "") + M.CONFIG_NAMES[li % 2])
+                if second is not None and second != loc:
+                    b.toml(None, path=second + "/" + M.CONFIG_NAMES[(li + 1) % 2])
+                b.lua("t0.lua")
+                b.k += 1
+                b.files["up1/elsewhere/lib/t9.lua"] = M.lua_probe(b.k)
+                out = M.ROOT_TOKEN + "/up1/elsewhere"
+                argv = {"abs-file": [out + "/lib/t9.lua", "t0.lua"], "abs-dir": [out], "stdin-filepath": ["--stdin-filepath", out + "/lib/zz.lua", "-"]}[shape]
+                cases.append(b.case(argv, stdin=M.lua_probe(906) if shape == "stdin-filepath" else None,
+                                    tag=f"outside-cwd:cfg@{loc or 'root'}{'+' + second if second else ''}:{shape}"))
     return cases
 
 
